@@ -234,10 +234,9 @@ def build_c07(rng, g, a, b):
             its.append(relcheck.Item('%s_w%s' % (g.gid, op), [('Y', r1), ('Y', r2)], Eq(In(0), In(1)), 64, inp, not ex,
                                      'rewritten operands, %s' % op, [cs[op], cs[op + 'w']]))
             if ex:
-                n1 = sorted(norm_ring(r) for p in r1 for r in p)
-                n2 = sorted(norm_ring(r) for p in r2 for r in p)
-                if n1 != n2:
-                    direct.append('%s: result rings differ beyond ring start / direction / repeated vertices' % op)
+                # the boundaries, not the rings: how a boundary with a pinch vertex is cut into rings may depend on contour ids
+                if boundary_canon(r1) != boundary_canon(r2):
+                    direct.append('%s: result boundaries differ beyond ring start / direction / repeated vertices / ring assembly' % op)
             if op + 'PP' in cs:
                 base = res[cs[op + 'MM'].cid]
                 for tag in ('PP', 'PM', 'MP'):
@@ -256,6 +255,42 @@ def norm_ring(r):
     fw = fmt.canon_ring(r)
     bw = fmt.canon_ring(list(reversed(r)))
     return min(fw, bw)
+
+
+def boundary_canon(mp):
+    """the boundary of a result as a canonical list of (line, from, to, multiplicity): the edges of all rings, grouped by
+    supporting line, as maximal intervals of constant coverage.  It does not depend on ring start, direction, repeated or
+    collinear vertices, the order of rings and polygons, nor on HOW the boundary is cut into rings (a hole that touches its
+    exterior at a vertex may be handed back as a ring of its own - the bounding-box shortcut returns the operand as given - or
+    threaded into the exterior ring by the sweep: same region, same boundary, different rings).  Two valid results that
+    denote the same region have the same canonical boundary."""
+    lines = {}
+    for p in mp:
+        for r in p:
+            r = fmt.strip_closing([(F(x), F(y)) for (x, y) in r])
+            for i in range(len(r)):
+                (x0, y0), (x1, y1) = r[i - 1], r[i]
+                if (x0, y0) == (x1, y1):
+                    continue
+                nx, ny = -(y1 - y0), x1 - x0
+                k = nx if nx != 0 else ny
+                nx, ny = nx / k, ny / k
+                key = (nx, ny, nx * x0 + ny * y0)
+                t0, t1 = (x0, x1) if x0 != x1 else (y0, y1)
+                ev = lines.setdefault(key, {})
+                ev[min(t0, t1)] = ev.get(min(t0, t1), 0) + 1
+                ev[max(t0, t1)] = ev.get(max(t0, t1), 0) - 1
+    out = []
+    for key in sorted(lines):
+        cov, start = 0, None
+        for t in sorted(lines[key]):
+            d = lines[key][t]
+            if d == 0:
+                continue
+            if cov > 0:
+                out.append((key, start, t, cov))
+            cov, start = cov + d, t
+    return out
 
 
 # ------------------------------------------------------------------ C08
@@ -346,11 +381,11 @@ def build_c09(rng, g, a, b):
             its.append(relcheck.Item('%s_f%s' % (g.gid, op), [('Y', base), ('Y', withfar), ('E', far)], law, 64, inp, not ex,
                                      'far part %s on the %s, %s' % (d, side, op), [cs[op], cs[op + 'f']]))
             if ex:
-                # rings modulo start / direction / repeated vertices: rings handed back by the bounding-box shortcut keep
-                # their given direction (C04), rings assembled by the sweep are re-oriented
-                nm = lambda mp: sorted((norm_ring(p[0]), tuple(sorted(norm_ring(h) for h in p[1:]))) for p in mp if p)  # noqa: E731
-                want = nm(base + (closed([far]) if present else []))
-                if nm(withfar) != want:
+                # the boundaries, not the rings: rings handed back by the bounding-box shortcut are the operand's rings as given
+                # (C04), rings assembled by the sweep are re-oriented and a hole that touches its exterior at a vertex is threaded
+                # into the exterior ring - the same region (the law above) with the same boundary
+                want = boundary_canon(base + (closed([far]) if present else []))
+                if boundary_canon(withfar) != want:
                     direct.append('%s: result with the far part (%s, %s) is not the base result %s the part itself'
                                   % (op, d, side, 'plus' if present else 'without'))
         return its, direct
